@@ -177,6 +177,8 @@ func Show(key, val string) {
 		}
 	}
 	Info = append(Info, l)
+	// printed at once: a replay that hangs or dies never reaches the end of the run
+	fmt.Println("INFO " + l)
 }
 
 // Watch is a debugging aid (engine prints the value under a counterexample).
